@@ -44,6 +44,10 @@ def scenario_actions(w, A):
         w.scenario_dict[u.PRIVESCS]['pe_x'] = {
             u.PRIVESC_PROCESS: A.name, u.PRIVESC_OS: A.os, u.PRIVESC_PROB: A.prob,
             u.PRIVESC_COST: A.cost, u.PRIVESC_ACCESS: A.grant}
+    # a fresh Scenario object over the completed definition (nothing may rely on the Scenario
+    # reading its dictionary lazily)
+    from nasim.scenarios.scenario import Scenario
+    w.scenario = Scenario(w.scenario_dict, name="sym")
 
 
 def run(src, q):
@@ -61,7 +65,8 @@ def run(src, q):
     decode = q.get('decode')        # None | 'flat' | 'param': pass the action the way users do
     costs = symbolic_scan_costs(src) if decode else None
     w = scen.build_world(src, shape, sens=sens, step_limit=limit,
-                         host_fw=q.get('host_fw', True), scan_costs=costs)
+                         host_fw=q.get('host_fw', True), scan_costs=costs,
+                         host_order=q.get('host_order'))
     scan_cost = costs[kind[:-5]] if (decode and kind.endswith('_scan')) else None
     A = scen.make_action(w, kind, target, q.get('name'), q.get('os'),
                          req_symbolic=q.get('req_sym', True) and not decode, cost=scan_cost)
@@ -214,6 +219,8 @@ def base_queries(tier, level='net', kinds=scen.KINDS, extra=None):
                     names = [(None, None)]
                 for (nm, o) in names:
                     d = dict(shape=sh.to_json(), kind=kind, target=list(t), name=nm, os=o, level=level)
+                    if list(sh.sizes) == [2, 1]:
+                        d['host_order'] = 'reversed'      # scenario lists its hosts in another order
                     if extra:
                         d.update(extra)
                     qs.append(d)
